@@ -250,7 +250,8 @@ def check(prop, tier, replay=None):
 # mode "trace": every project of the universe is traced and judged by the property predicates of TraceSched
 MC_PLAN = {
     "C02": [("MC_Cal", "MC_Cal.cfg", "MC_CalFull.cfg", "+2w", "trace")],
-    "C07": [("MC_Core", "MC_Core.cfg", "MC_CoreFull.cfg", "+1w", "final"), ("MC_Tree", "MC_Tree.cfg", "MC_TreeFull.cfg", "+1w", "final")],
+    "C07": [("MC_Core", "MC_Core.cfg", "MC_CoreFull.cfg", "+1w", "final"), ("MC_Tree", "MC_Tree.cfg", "MC_TreeFull.cfg", "+1w", "final"),
+            ("MC_Week", "MC_WeekTiny.cfg", "MC_WeekFull.cfg", "+22d", "final")],
     "C10": [("MC_Tree", "MC_Tree.cfg", "MC_TreeFull.cfg", "+1w", "trace")],
     "C01": [("MC_SubSlot", "MC_SubSlotTiny.cfg", "MC_SubSlot.cfg", "+1w", "trace"), ("MC_Team", None, "MC_Team.cfg", "+1w", "trace")],
     "C03": [("MC_SubSlot", None, "MC_SubSlot.cfg", "+1w", "trace"), ("MC_Alt", "MC_Alt.cfg", "MC_AltFull.cfg", "+1w", "trace"),
@@ -259,7 +260,7 @@ MC_PLAN = {
     "C08": [("MC_Alap", "MC_AlapTiny.cfg", "MC_Alap.cfg", "+1w", "trace"), ("MC_Core", None, "MC_Core.cfg", "+1w", "trace"),
             ("MC_Cal", None, "MC_CalFull.cfg", "+2w", "trace")],
     "C04": [("MC_Alap", "MC_AlapTiny.cfg", "MC_AlapFull.cfg", "+1w", "trace"), ("MC_Tree", None, "MC_TreeFull.cfg", "+1w", "trace")],
-    "C05": [("MC_Limits", "MC_LimitsTiny.cfg", "MC_Limits.cfg", "+2w", "trace")],
+    "C05": [("MC_Limits", "MC_LimitsTiny.cfg", "MC_Limits.cfg", "+2w", "trace"), ("MC_Week", "MC_WeekTiny.cfg", "MC_WeekFull.cfg", "+22d", "trace")],
 }
 
 
@@ -269,7 +270,7 @@ UNIVERSE_START = {"MC_Cal": (2024, 3, 4)}        # the week in which America/New
 
 def run_universes(run, scr, prop, tier):
     from harness import e2
-    from datetime import datetime
+    from datetime import datetime, timedelta
     for module, qcfg, tcfg, length, mode in MC_PLAN[prop]:
         cfg = qcfg if tier == "quick" else tcfg
         if cfg is None:
@@ -301,7 +302,7 @@ def run_universes(run, scr, prop, tier):
                 A = t["project"]
                 gen_abs = {"tasks": A["tasks"], "res": [dict(r, tzname=r.get("tzname", "")) for r in A["res"]], "vac": A["vac"], "gleaves": A["gleaves"], "alap": A["alap"]}
                 jobs.append({"id": "%s-%s-u%06d" % (prop, module, i), "scenarios": [0], "abstract": gen_abs,
-                             "text": gen.render_abstract(A, length=length, start=datetime(*UNIVERSE_START.get(module, (2024, 1, 1))))})
+                             "text": gen.render_abstract(A, length=length, start=datetime(*UNIVERSE_START.get(module, (2024, 1, 1))) + timedelta(minutes=A.get("mow", 0)))})
             recs = e1.run_impl(scr, jobs, nproc=14)
             vs, res2 = e1.validate(recs)
             run.add_tlc(res2)
